@@ -1,6 +1,10 @@
 """VtOrderB (C14): see __init__.py.  Behaviour letters (first letter of the command name):
  r b v l h  irc.reply(name + '(' + ', '.join(args) + ')')
  n        irc.noReply()
+ d        irc.reply(text); irc.reply(text + '!')     (two replies)
+ m        irc.replies(['m1', 'm2'], oneToOne=False)   c  irc.replies(['c1', 'c2'])
+ p        reply then irc.error    k  reply then noReply    f  irc.error then reply
+ u        irc.replySuccess()      g  irc.queueMsg(...) then reply    t  reply then raise ValueError
  o        irc.reply('')            (the empty string is a reply like any other)
  w        irc.reply('  ')          (blanks only)
  e        irc.error('E:' + name)
@@ -34,6 +38,31 @@ def _act(k, name, irc, msg, args):
             irc.reply(text)
         elif k == 'n':
             irc.noReply()
+        elif k == 'd':
+            irc.reply(text)
+            irc.reply(text + '!')
+        elif k == 'm':
+            irc.replies(['m1', 'm2'], oneToOne=False)
+        elif k == 'c':
+            irc.replies(['c1', 'c2'])
+        elif k == 'p':
+            irc.reply(text)
+            irc.error('P:' + name)
+        elif k == 'k':
+            irc.reply(text)
+            irc.noReply()
+        elif k == 'u':
+            irc.replySuccess()
+        elif k == 'g':
+            import supybot.ircmsgs as ircmsgs
+            irc.queueMsg(ircmsgs.privmsg('#vt', 'G:' + name))
+            irc.reply(text)
+        elif k == 'f':
+            irc.error('F:' + name)
+            irc.reply(text)
+        elif k == 't':
+            irc.reply(text)
+            raise ValueError('boom ' + name)
         elif k == 'o':
             irc.reply('')
         elif k == 'w':
@@ -64,7 +93,7 @@ def _fill(cls, names):
 class VtOrderB(callbacks.Plugin):
     """Synthetic C14 plugin B (not threaded; a command named like the plugin itself)."""
     threaded = False
-_fill(VtOrderB, ['rone', 'both', 'rbee', 'nrep', 'vtorderb', 'erro', 'igno', 'rdis', 'help', 'oemp'])
+_fill(VtOrderB, ['rone', 'both', 'rbee', 'nrep', 'vtorderb', 'erro', 'igno', 'rdis', 'help', 'oemp', 'dbee', 'kbee', 'pbee'])
 
 def _invalidCommand(self, irc, msg, tokens):
     """an invalidCommand handler: answers for first tokens `binv<k>...` (behaviour letter <k>) and
